@@ -424,7 +424,9 @@ impl<H: Hasher> VectorCommitment<H> for MerkleTree<H> {
     }
 
     fn get_multiproof_domain_len(proof: &Self::MultiProof) -> usize {
-        1 << proof.depth
+        // the depth may come from an untrusted source; a depth no tree can have maps to an empty
+        // domain, which never matches the domain the verifier expects
+        1usize.checked_shl(proof.depth as u32).unwrap_or(0)
     }
 
     fn open(&self, index: usize) -> Result<(H::Digest, Self::Proof), Self::Error> {
